@@ -12,6 +12,7 @@ import (
 	"io"
 	"os"
 	"path/filepath"
+	"strings"
 	"testing"
 	"time"
 
@@ -682,8 +683,17 @@ func runC15FS(c C15FSCase) (bool, error) {
 		case "loadall":
 			// CompiledLoader.LoadAll on the running engine: whatever it preloads, later reads follow
 			// the same rules (the loader is timestamp-aware)
+			// (LoadAll registers every compiled file that lies directly in the directory: with the
+			// cache on, those names are cached from then on, in the version on disk now)
 			if c.Compiled {
 				guard(func() (string, error) { return "", twig.NewCompiledLoader(roots[0]).LoadAll(e) })
+				if cacheOn {
+					for n, it := range files[0] {
+						if !strings.Contains(n, "/") {
+							cache[n] = it
+						}
+					}
+				}
 			}
 		case "rewrite":
 			// new content, old modification time (a change the timestamp does not show)
@@ -731,8 +741,19 @@ func runC15FS(c C15FSCase) (bool, error) {
 					if has && cur.root < cached.root {
 						admissible[cur.version] = true
 					}
-				} else if !candidates(name, admissible) {
-					notFound = true
+				} else {
+					found := candidates(name, admissible)
+					// the file the cached copy came from is gone; a copy in another search path that
+					// carries the very time of the cached copy is a change the timestamp does not show
+					for _, m := range files {
+						if it, ok := m[name]; ok && it.ts == cached.ts {
+							admissible[cached.version] = true
+							found = true
+						}
+					}
+					if !found {
+						notFound = true
+					}
 				}
 			}
 			var r Res
